@@ -232,6 +232,20 @@ theorem feeder_cfb (B : BlockCipher) (hlen : ∀ key b, (B.enc key b).length = 1
       | .ok (_, o) => .ok (o.take data.length) :=
   Modes.feedAll_cfb B hlen f seg hk hseg h16 hreg hpad hb data
 
+/-- **`encrypt_stream` / `decrypt_stream`** (`_feed_stream`): whatever non-empty chunks the stream's `read(block_size)` calls
+return before the first empty one — complete reads of any block size, short reads — the bytes written to the output stream
+are those of one `feed(data)` and the finalising `feed()` on the whole content; an exception is the same one -/
+theorem stream_chunking_independent (B : BlockCipher) (hlen : ∀ key b, (B.enc key b).length = 16) (f : Modes.Feeder B)
+    (cs : List Bytes) (hb : f.buffer = some []) (hseg : ∀ seg, f.mode.kind = .cfb seg → 0 < seg) :
+    Modes.feedStreamChunks B f cs = Modes.feedAll B f cs.flatten :=
+  Modes.feedStreamChunks_eq_feedAll B hlen f cs hb hseg
+
+/-- … and a stream that reads completely is cut into such chunks for every `block_size > 0` -/
+theorem stream_block_size_independent (B : BlockCipher) (hlen : ∀ key b, (B.enc key b).length = 16) (f : Modes.Feeder B)
+    (n : Nat) (hn : 0 < n) (data : Bytes) (hb : f.buffer = some []) (hseg : ∀ seg, f.mode.kind = .cfb seg → 0 < seg) :
+    Modes.feedStream B f n data = Modes.feedAll B f data :=
+  Modes.feedStream_eq_feedAll B hlen f n hn data hb hseg
+
 /-- **the adapter model is the general mode-object and feeder models used the adapter's way**: a fresh CBC object, a feeder
 with `padding="none"`, one `feed(data)` and `feed()` -/
 theorem adapter_is_cbc_feeder (B : BlockCipher) (key : Bytes) (iv : Option Bytes) (data : Bytes) :
